@@ -36,6 +36,25 @@ def closure_family(prog, root):
     return [b for d, b in prog.bodies.items() if d == root or d.startswith(root + "::")]
 
 
+def sink_sites(prog, S, root, sink_rx):
+    """Calls matching `sink_rx` in the implementation `root` or in a crate-local helper of the colour
+    functions it calls (one level, single call site): yields (body, block, term, T) where T(op) is the
+    symbolic term of an operand with the helper's parameters replaced by the caller's arguments."""
+    out = []
+    for b in closure_family(prog, root):
+        for bi, t in b.calls():
+            cn = mir.callee_name(t) or ""
+            if sink_rx.search(cn):
+                out.append((b, bi, t, (lambda op, b=b: sym.strip_transparent(S.operand(b, op)))))
+            elif cn.startswith("sass::functions::color") and cn in prog.bodies:
+                hb = prog.bodies[cn]
+                env = [S.operand(b, a) for a in t["args"]]
+                for bi2, t2 in hb.calls():
+                    if sink_rx.search(mir.callee_name(t2) or ""):
+                        out.append((hb, bi2, t2, (lambda op, hb=hb, env=env: sym.strip_transparent(S.operand(hb, op, env=env)))))
+    return out
+
+
 def run(ctx, F):
     ctx.explanation = ("C32, structural clauses only (the algebraic laws over floating-point colours are not decided): provenance of the moved channel and of the untouched channels in "
                        "lighten/darken/saturate/desaturate/fade-in/fade-out/grayscale, and an interval abstract interpretation proving every channel value these functions store inside its range")
@@ -55,21 +74,18 @@ def run(ctx, F):
         if name not in impl:
             ctx.anchor_lost(f"global {name}", "no registered implementation")
             continue
-        fam = closure_family(prog, impl[name])
         key = f"{name}|{fld} := {acc}(color) {'+' if sign == 'Add' else '-'} $amount"
         found = []
-        for b in fam:
-            for bi, t in b.calls():
-                cn = mir.callee_name(t) or ""
-                if cn.endswith("hsla::Hsla>::new") and struct == "Hsla":
-                    found.append((b, bi, t, t["args"][HSLA_ARGS.index(fld)], [(HSLA_ARGS[i], a) for i, a in enumerate(t["args"][:4]) if HSLA_ARGS[i] != fld]))
-                elif cn.endswith("colors::Color>::set_alpha") and struct == "Color":
-                    found.append((b, bi, t, t["args"][1], []))
+        for b, bi, t, T in sink_sites(prog, S, impl[name], re.compile(r"hsla::Hsla>::new$" if struct == "Hsla" else r"colors::Color>::set_alpha$")):
+            if struct == "Hsla":
+                found.append((b, bi, t, t["args"][HSLA_ARGS.index(fld)], [(HSLA_ARGS[i], a) for i, a in enumerate(t["args"][:4]) if HSLA_ARGS[i] != fld], T))
+            else:
+                found.append((b, bi, t, t["args"][1], [], T))
         if len(found) != 1:
             ctx.anchor_lost(key, f"{len(found)} constructor / setter calls found in the implementation of {name}")
             continue
-        b, bi, t, moved, others = found[0]
-        term = sym.strip_transparent(S.operand(b, moved))
+        b, bi, t, moved, others, T = found[0]
+        term = T(moved)
         # saturate clamps its sum: look through clamp(x, 0, 1)
         inner = term
         if inner[0] == "call" and inner[1].endswith("f64>::clamp") and inner[2]:
@@ -85,23 +101,22 @@ def run(ctx, F):
             ctx.fail("F4-channel-move", key, f"{name}: {why}; expected `{acc}(color) {'+' if sign == 'Add' else '-'} $amount`", where=b.where(bi))
         for ofld, a in others:
             k2 = f"{name}|{ofld} unchanged"
-            ot = repr(sym.strip_transparent(S.operand(b, a)))
+            ot = repr(T(a))
             if re.search(r">::%s'" % re.escape({"lum": "lum", "sat": "sat", "hue": "hue", "alpha": "alpha"}[ofld]), ot) and "'amount'" not in ot:
                 ctx.ok("F4-channel-kept", k2, None)
             else:
-                ctx.fail("F4-channel-kept", k2, f"{name} hands `{sym.show(sym.strip_transparent(S.operand(b, a)))[:120]}` to the constructor as {ofld}: expected the {ofld} of the argument colour unchanged", where=b.where(bi))
+                ctx.fail("F4-channel-kept", k2, f"{name} hands `{sym.show(T(a))[:120]}` to the constructor as {ofld}: expected the {ofld} of the argument colour unchanged", where=b.where(bi))
     # ---------------------------------------------------------------- (iii) grayscale
     if "grayscale" not in impl:
         ctx.anchor_lost("global grayscale", "no registered implementation")
     else:
-        fam = closure_family(prog, impl["grayscale"])
-        news = [(b, bi, t) for b in fam for bi, t in b.calls() if (mir.callee_name(t) or "").endswith("hsla::Hsla>::new")]
+        news = sink_sites(prog, S, impl["grayscale"], re.compile(r"hsla::Hsla>::new$"))
         if len(news) != 1:
             ctx.anchor_lost("grayscale constructor", f"{len(news)} Hsla::new calls")
         else:
-            b, bi, t = news[0]
+            b, bi, t, T = news[0]
             for i, fld in enumerate(HSLA_ARGS):
-                term = sym.strip_transparent(S.operand(b, t["args"][i]))
+                term = T(t["args"][i])
                 k2 = f"grayscale|{fld} " + ("= 0" if fld == "sat" else "unchanged")
                 if fld == "sat":
                     good = term[0] == "const" and float(term[1]) == 0.0
